@@ -11,6 +11,7 @@ from mc.engine.report import Violation
 from mc.engine.seams import Canon, reset_library, public_snapshot
 
 import ECAgent.Core as Core
+from ECAgent.Collectors import Collector
 
 DEFAULT = 'default'
 
@@ -64,7 +65,19 @@ def make_rec(log):
         def __len__(self):
             return 0
 
+    class RecCollector(Collector):
+        """A collector is a system too: same window rules (other module, other constructor)."""
+
+        def __init__(self, key, model, prio, start, end, freq, sid=None):
+            kw = {} if end == DEFAULT else {'end': end}
+            super().__init__(sid or key, model, priority=prio, frequency=freq, start=start, **kw)
+            self.key = key
+
+        def collect(self):
+            log.append((self.model.systems.timestep, self.key))
+
     Rec.Falsy = FalsyRec
+    Rec.Collector = RecCollector
     return Rec
 
 
@@ -78,7 +91,7 @@ def sweep_case(case):
     model = Core.Model(seed=1)
     log = []
     Rec = make_rec(log)
-    s = Rec('s', model, 0, start, end, freq)
+    s = (Rec.Collector if case.get('kind') == 'collector' else Rec)('s', model, 0, start, end, freq)
     if end == DEFAULT and s.end != maxsize:
         raise Violation('default end is not sys.maxsize', expected=maxsize, observed=s.end)
     for t in range(horizon):
@@ -125,8 +138,9 @@ def sweep_cases(tier):
             end = DEFAULT if e == DEFAULT else start + e
             for freq in freqs:
                 for reg in regs:
-                    yield {'leg': 'window_sweep', 'start': start, 'end': end, 'freq': freq, 'reg': reg,
-                           'horizon': horizon}
+                    for kind in ('system', 'collector'):
+                        yield {'leg': 'window_sweep', 'start': start, 'end': end, 'freq': freq, 'reg': reg,
+                               'horizon': horizon, 'kind': kind}
 
 
 # ---------------------------------------------------------------------------------------------------------
